@@ -83,6 +83,13 @@ def main():
         with open(out_path) as f:
             results = json.load(f)
     for name, path in patches:
+        if name.startswith("seeded_"):
+            meta = os.path.join(os.path.dirname(path), "meta.json")
+            if os.path.exists(meta):
+                with open(meta) as f:
+                    if json.load(f).get("neutralised_by"):
+                        print("%-70s skipped (neutralised by a later fix, see meta.json)" % name[:70], flush=True)
+                        continue
         exp = expected_of(path)
         if not exp and name.startswith("seeded_"):
             meta = os.path.join(os.path.dirname(path), "meta.json")
